@@ -189,6 +189,9 @@ pub enum Op {
     Iter { store: usize, it: usize },
     Next { it: usize, n: usize },
     Drain { it: usize },
+    /// next() until a close()/stop()/drop of that store has been invoked by some client thread (or
+    /// None comes): the consumer that is told to quit while the store is still working its backlog
+    NextUntilShut { it: usize, store: usize },
     DropIter { it: usize },
     AddReducer { store: usize, tag: u32 },
     AddMiddleware { store: usize, tag: u32 },
